@@ -22,6 +22,41 @@ ASSUMPTIONS = ['np.searchsorted(side="right") on a sorted array = number of elem
                'pressure levels strictly decreasing with altitude, layer pressures inside their levels (C11)',
                'rounding not modelled: sigma compared to 1e-9 relative']
 
+# ---- source tie (harness/translate.py, dialect 'shaped'): re-translated on every run into lean/TaurexModel/Gen/SrcC19.lean;
+# lean/Props/C19Src.lean proves each definition equal to the model function of TaurexModel/Haze.lean.
+_PE = dict(model='skip', wngrid='skip')
+SRC_SPECS = [
+    dict(module='taurex/contributions/simpleclouds.py', cls='SimpleCloudsContribution', func='prepare_each',
+         lean='clouds_prepare_each', dialect='shaped', params=_PE, lens={'wngrid': 'nW'},
+         attrs={'model.nLayers': ('nL', 'nat'), 'model.pressureProfile': ('P', 'arr'),
+                'self._cloud_pressure': ('p0', 's'), 'self._contrib': ('contrib_attr', 'arr2')},
+         dims={'model.pressureProfile': ['nL']}, local_attrs=['self._contrib'], yields='single', returns='arr2'),
+    dict(module='taurex/contributions/simpleclouds.py', cls='SimpleCloudsContribution', func='contribute',
+         lean='clouds_contribute', dialect='shaped',
+         params=dict(model='skip', start_layer='skip', end_layer='skip', density_offset='skip', layer='nat',
+                     density='skip', tau='arr2', path_length='skip'),
+         attrs={'self.sigma_xsec': ('sigma', 'arr2')}, dims={'tau': ['nL', 'nW'], 'self.sigma_xsec': ['nL', 'nW']},
+         out='tau', returns='arr2'),
+    dict(module='taurex/contributions/leemie.py', cls='LeeMieContribution', func='prepare_each',
+         lean='lee_prepare_each', dialect='shaped', params=dict(model='skip', wngrid='arr'), lens={'wngrid': 'nW'},
+         dims={'wngrid': ['nW'], 'model.pressureProfile': ['nL'], 'pressure_profile': ['nL']},
+         attrs={'model.nLayers': ('nL', 'nat'), 'model.pressureProfile': ('P', 'arr'),
+                'self._nlayers': ('nlayers', 'nat'), 'self._ngrid': ('ngrid', 'nat'),
+                'self.mieBottomPressure': ('bottomRaw', 's'), 'self.mieTopPressure': ('topRaw', 's'),
+                'self.mieRadius': ('a', 's'), 'self.mieQ': ('q', 's'), 'self.mieMixing': ('mix', 's')},
+         local_attrs=['self._nlayers', 'self._ngrid'], ignore_stores=['self.sigma_xsec'], yields='single',
+         returns='arr2'),
+    dict(module='taurex/contributions/flatmie.py', cls='FlatMieContribution', func='prepare_each',
+         lean='flat_prepare_each', dialect='shaped', params=_PE, lens={'wngrid': 'nW'},
+         dims={'model.pressure.pressure_profile_levels': ['(nL + 1)']},
+         attrs={'model.nLayers': ('nL', 'nat'), 'model.pressure.pressure_profile_levels': ('plev', 'arr'),
+                'self._nlayers': ('nlayers', 'nat'), 'self._ngrid': ('ngrid', 'nat'),
+                'self.mieBottomPressure': ('bottomRaw', 's'), 'self.mieTopPressure': ('topRaw', 's'),
+                'self.mieMixing': ('mix', 's')},
+         local_attrs=['self._nlayers', 'self._ngrid'], ignore_stores=['self.sigma_xsec'], yields='single',
+         returns='arr2'),
+]
+
 E10 = T.E10
 
 
